@@ -1,6 +1,6 @@
 ENTRY = {
     "level": "other",
-    "families": [fam("C29", 400, 20000)],
+    "families": [fam("C29", 400, 4000)],
     "gen_items": [],
     "rule": "every statement runs in a child process of the harness (catch_unwind + panic hook with the innermost engine frame; parent sees abort "
             "signals/stack overflows; limit = 10 s of child CPU time per statement, 120 s wall backstop; 6 GB address-space cap; RAYON_NUM_THREADS=4); "
